@@ -571,7 +571,7 @@ package tchannel
 //@ ghostfield connFailSys
 //@ func (p *Peer) getConnectionRelay(callTimeout time.Duration, relayMaxConnTimeout time.Duration) (c *Connection, err error)
 //@   trusted
-//@   modifies allbut Relayer, relayItems, lazyCallReq, Frame, own, bytes, errAttempts, sysErrID, sysErrCode, sysErrMsg, lookupHit, nadmit, admitted
+//@   modifies allbut Relayer, relayItems, lazyCallReq, Frame, own, bytes, errAttempts, sysErrID, sysErrCode, sysErrMsg, lookupHit, nadmit, admitted, ndec, nends
 //@   ensures (err != nil <==> connFailed(p) == 1) && (err == nil ==> c != nil) && (connFailSys(p) == 1 <==> istype(err, SystemError))
 //@   ensures err == nil ==> c != nil && RelayerOK(c.relay) && ValidRelayMax(c.relay.maxTimeout)
 //@   effect bounded
@@ -583,7 +583,7 @@ package tchannel
 //@ func (r *Relayer) getDestination(f *lazyCallReq, call RelayCall) (conn *Connection, ok bool, err error)
 //@   nosafety
 //@   requires r.conn != nil && LCR(f) && call != nil && r.outbound != nil && r.logger != nil
-//@   modifies allbut Relayer, relayItems, nadmit, admitted
+//@   modifies allbut Relayer, relayItems, nadmit, admitted, ndec
 // (lookupHit(items): the answer of the most recent relayItems.Get on that table,
 // see the relay file; the table is monitor-guarded, so "present at entry" says
 // nothing about the time of the lookup)
